@@ -83,14 +83,28 @@ def eval_config(ctx, cfg, with_model=True):
         ctx.case((cfg["dev"], cfg["gamma"], cfg["adaptive"], cfg["screening"], "raised"))
         return first
     frames, _ = runs.parse_h5(sol.path)
+    if dev.terminals and not cfg.get("long") and not cfg["screening"]:
+        # "all steps" of a run CONTINUED from the quiet state as well (seeded with the solution just obtained)
+        out2 = os.path.join(str(ctx.work), "c17_leg2.h5")
+        if os.path.exists(out2):
+            os.remove(out2)
+        try:
+            sol_b = tdgl.solve(dev, runs.options(solve_time=T / 2, save_every=2, output_file=out2, progress_interval=10**9, **o), seed_solution=sol)
+            leg2 = runs.parse_h5(sol_b.path)[0]
+            for fr in leg2:
+                fr["step"] = f"seeded leg, step {fr['step']}"
+            frames = frames + leg2
+            ctx.count("quiet_runs_continued_from_the_quiet_state")
+        except Exception as e:  # noqa
+            fail("quiet-run-raised", f"the undriven run continued from the quiet state raised {type(e).__name__}: {str(e)[:140]}", error=f"{type(e).__name__}: {str(e)[:140]}")
     worst = 0.0
     for fr in frames:
         d = fr["data"]
         dev_ = max(float(np.abs(d["psi"] - 1).max()), float(np.abs(d["mu"]).max()), float(np.abs(d["supercurrent"]).max()), float(np.abs(d["normal_current"]).max()),
                    float(np.abs(d["induced_vector_potential"]).max()))
         worst = max(worst, dev_)
-        ctx.case((cfg["dev"], cfg["gamma"], cfg["adaptive"], cfg["screening"], cfg.get("dt_max", 0.1), cfg.get("tp"), fr["step"]), nontrivial=fr["step"] > 0)
-        if dev_ > 1e-10:
+        ctx.case((cfg["dev"], cfg["gamma"], cfg["adaptive"], cfg["screening"], cfg.get("dt_max", 0.1), cfg.get("tp"), fr["step"]), nontrivial=(fr["step"] != 0))
+        if not (dev_ <= 1e-10):  # (also NaN)
             key = "uniform-state-drifts" + (f":long:{cfg['dev']}:gamma={cfg['gamma']}:u={cfg['u']}:dt_max={cfg['dt_max']}" if cfg.get("long") else "")
             fail(key, f"step {fr['step']} (t = {float(fr['time']):.3g}): deviation from psi=1, mu=0, J=0 is {dev_:.3e} (gamma={cfg['gamma']}, u={cfg['u']}, dt_max={o['dt_max']})", step=fr["step"], deviation=dev_)
             break
